@@ -640,6 +640,71 @@ default-constructed pool it divides by `_elemsz = 0` (trap) -/
 theorem ipool_sizeOrig_default_witness :
     IPool.default.cellsOrig = none ∧ IPool.default.cells = 0 ∧ (IPool.init 48 16).cellsOrig = some 3 := by decide
 
+/-! ## Requests close to `SIZE_MAX` (64-bit `size_t`)
+
+`malloc64` / `realloc64` = the routines with the overflow test of
+`fix: malloc()/realloc() fail when rounding the request up to __WORDSIZE wraps around`;
+for every request they either refuse (NULL, nothing changed) or behave as the
+unbounded routines above, so all heap theorems hold for ALL request sizes. -/
+
+/-- for EVERY request size: a block returned by malloc has a usable size ≥ the
+request (and all the other properties of `malloc_returns_valid_block`); a request
+whose rounding does not fit a `size_t` is refused and nothing changes -/
+theorem malloc64_all_sizes (cfg : Cfg) (ok : CfgOK cfg) (h : Heap) (n : Nat) (hr : Reach cfg h) :
+    (∀ p, (malloc64 cfg h n).ret = some p →
+      ∃ s, (malloc64 cfg h n).h.live = (p - 8, s) :: h.live ∧ n ≤ s ∧ p % 8 = 0 ∧
+        p + s ≤ (malloc64 cfg h n).h.brk ∧ ∀ c ∈ h.live, Disj c (p - 8, s)) ∧
+    ((malloc64 cfg h n).ret = none → (malloc64 cfg h n).h = h ∧ (malloc64 cfg h n).evs = []) ∧
+    (n ≤ SIZE_MAX → roundLen cfg.W n > SIZE_MAX → (malloc64 cfg h n).ret = none) ∧
+    Reach cfg (malloc64 cfg h n).h := by
+  unfold malloc64
+  split
+  · rename_i hc
+    exact ⟨fun p hp => (by cases hp), fun _ => ⟨rfl, rfl⟩, fun _ _ => rfl, hr⟩
+  · rename_i hc
+    refine ⟨fun p hp => ?_, fun hn => (malloc_fail_changes_nothing cfg h n hn).2, fun hle hbig => ?_,
+      hr.step (op := .malloc n) rfl⟩
+    · obtain ⟨s, h1, _, h3, h4, h5, _, h7⟩ := malloc_returns_valid_block cfg ok h n p hr hp
+      exact ⟨s, h1, h3, h4, h5, h7⟩
+    · exfalso; apply hc
+      unfold roundLen at hbig
+      split at hbig
+      · rename_i hm
+        have : 0 < n := by
+          rcases Nat.eq_zero_or_pos n with h0 | h0
+          · subst h0; simp at hm
+          · exact h0
+        exact ⟨hm, by omega⟩
+      · omega
+
+/-- the same for realloc: either the unbounded routine, or NULL with the heap
+(and the old block) unchanged -/
+theorem realloc64_all_sizes (cfg : Cfg) (ok : CfgOK cfg) (h : Heap) (p n sz : Nat) (r : Res)
+    (hr : Reach cfg h) (hl : lookup (p - 8) h.live = some sz) (hs : realloc64 cfg h (some p) n = some r) :
+    (∀ q, r.ret = some q → ∃ s, lookup (q - 8) r.h.live = some s ∧ n ≤ s ∧ q % 8 = 0 ∧ q + s ≤ r.h.brk) ∧
+    (r.ret = none → r.h = h ∧ r.evs = []) := by
+  unfold realloc64 at hs
+  split at hs
+  · cases hs
+    exact ⟨fun q hq => (by cases hq), fun _ => ⟨rfl, rfl⟩⟩
+  · refine ⟨fun q hq => ?_, fun hn => realloc_fail_changes_nothing cfg ok h p n sz r hr hl hs hn⟩
+    obtain ⟨s, h1, h2, h3, h4, _⟩ := realloc_returns_valid_block cfg ok h p n sz q r hr hl hs hq
+    exact ⟨s, h1, h2, h3, h4⟩
+
+/-- FULL STATEMENT violated by the routines as they were (`mallocOrig64`,
+`reallocOrig64`): `malloc(SIZE_MAX − 9)` returned a block of 64 usable bytes;
+`realloc(p, SIZE_MAX − 9)` of a 256-byte block "succeeded" by shrinking it to 64
+bytes and freeing the rest.  The repaired routines answer NULL and change nothing. -/
+theorem size_wrap_witness :
+    let cfg : Cfg := ⟨64, 0⟩
+    let big := 2 ^ 64 - 10
+    (mallocOrig64 cfg Heap.init big).ret = some 8 ∧ (mallocOrig64 cfg Heap.init big).h.live = [(0, 8)] ∧
+    (malloc64 cfg Heap.init big).ret = none ∧
+    (let h1 := (malloc cfg Heap.init 256).h
+     (∃ r, reallocOrig64 cfg h1 (some 8) big = some r ∧ r.ret = some 8 ∧ (0, 8) ∈ r.h.live) ∧
+     (∃ r, realloc64 cfg h1 (some 8) big = some r ∧ r.ret = none ∧ r.h = h1)) := by
+  decide
+
 /-! ## The heap at the level of the `nx` pointers (ModelPtr.lean)
 
 `PHeap` = `__brkval`, `__flp` and the two words `sz` / `nx` of every header in
